@@ -253,6 +253,11 @@ pub fn op_strategy(cfg: HistCfg) -> BoxedStrategy<Op> {
 pub struct History {
     pub initial: Tree,
     pub ops: Vec<Op>,
+    /// Number of the first version. Conserve always starts at b0000; a non-zero value renames
+    /// the first band directory right after it appears (9998 makes later ids cross from four
+    /// to five digits, which the format explicitly allows).
+    #[serde(default)]
+    pub first_band_id: u32,
 }
 
 pub fn history_strategy(cfg: HistCfg) -> BoxedStrategy<History> {
@@ -265,8 +270,9 @@ pub fn history_strategy(cfg: HistCfg) -> BoxedStrategy<History> {
             Opts { hunk: 4, block: 256, cap: 100 },
         ),
         prop::collection::vec(op_strategy(cfg), 1..=cfg.max_ops),
+        prop_oneof![9 => Just(0u32), 1 => Just(9998u32)],
     )
-        .prop_map(|(initial, ops)| History { initial, ops })
+        .prop_map(|(initial, ops, first_band_id)| History { initial, ops, first_band_id })
         .boxed()
 }
 
@@ -289,6 +295,8 @@ pub struct World {
     pub max_id_seen: Option<u32>,
     /// The source tree at every backup attempt so far (complete or interrupted).
     pub backed_up: Vec<Tree>,
+    /// If non-zero: rename the first band directory that appears to this number.
+    pub first_band_id: u32,
 }
 
 #[derive(Debug)]
@@ -323,7 +331,14 @@ impl World {
             bands: BTreeMap::new(),
             max_id_seen: None,
             backed_up: vec![],
+            first_band_id: 0,
         }
+    }
+
+    pub fn for_history(scratch: &Path, h: &History) -> World {
+        let mut w = World::new(scratch, &h.initial);
+        w.first_band_id = h.first_band_id;
+        w
     }
 
     /// The documented unchanged-file heuristic is (kind, mtime, size): a file whose content
@@ -365,6 +380,11 @@ impl World {
     /// Re-derive band states for bands not known to the model from the directory
     /// (used after an interrupted backup).
     fn sync_new_band(&mut self, before_ids: &[u32]) -> Option<u32> {
+        if self.first_band_id != 0 && before_ids.is_empty() && self.arch.join("b0000").is_dir() {
+            // the very first band: give it the requested number
+            let to = self.arch.join(format::band_dirname(self.first_band_id));
+            std::fs::rename(self.arch.join("b0000"), to).expect("rename first band");
+        }
         let ra = format::scan(&self.arch);
         let mut new_band = None;
         for (id, b) in &ra.bands {
